@@ -129,18 +129,19 @@ Theorem mat_apply_fast_eq modulo n m M S :
   length M = n -> (forall r, In r M -> length r = n) ->
   mat_apply_fast modulo n m M S = mat_apply modulo n m M S.
 Proof.
-  intros HM Hrows. unfold mat_apply, mat_apply_fast, columns.
-  rewrite <- HM at 2.
-  rewrite <- (flat_map_map_r
-    (fun Mi => map (fun k => dot_mod modulo (map (fun j => (nth j Mi 0%Z, mat_entry m S j k)) (seq 0 n)))
-                   (seq 0 m))
-    (fun i => nth i M [])).
-  rewrite map_nth_seq_id.
+  intros HM Hrows. subst n. unfold mat_apply, mat_apply_fast, columns.
+  assert (E : forall F : list Z -> list Z,
+             flat_map (fun i => F (nth i M [])) (seq 0 (length M)) = flat_map F M).
+  { intros F. rewrite <- (flat_map_map_r F (fun i => nth i M [])), map_nth_seq_id. reflexivity. }
+  etransitivity; [|symmetry; apply (E (fun Mi => map (fun k => dot_mod modulo
+      (map (fun j => (nth j Mi 0%Z, mat_entry m S j k)) (seq 0 (length M)))) (seq 0 m)))].
   apply flat_map_ext_in. intros Mi HMi. rewrite map_map. apply map_ext. intros k. f_equal.
   rewrite stride_spec.
-  rewrite <- (map_nth_seq_id 0%Z Mi) at 1. rewrite (Hrows Mi HMi).
-  rewrite combine_map_same. apply map_ext. intros j. f_equal.
-  unfold mat_entry. rewrite nth_skipn_add. f_equal. apply Nat.add_comm.
+  transitivity (combine (map (fun j => nth j Mi 0%Z) (seq 0 (length M)))
+                        (map (fun j => nth (j * m) (skipn k S) 0%Z) (seq 0 (length M)))).
+  - f_equal. rewrite <- (Hrows Mi HMi). symmetry. apply map_nth_seq_id.
+  - rewrite combine_map_same. apply map_ext. intros j. f_equal.
+    unfold mat_entry. rewrite nth_skipn_add. f_equal. apply Nat.add_comm.
 Qed.
 
 (* pointwise equal generator lists have the same reference layers *)
